@@ -442,7 +442,11 @@ CallI(id)   == I(CALL, 0, 0, 0, id)
 FarCallProg(N) ==
   Flat(<< CallxI(N), ExitI, Mov64I(0, 77), ExitI >>) \o << Seg(N - 3, Filler) >>
   \o Flat(<< CallxI(-N), Add64I(0, 1), ExitI >>)
+\* a call at index 65536: its return address (65537) does not fit 16 bits; cut to 16 bits it would
+\* be index 1, the second half of the wide load at 0
+FarLandProg == Flat(LddwSlots(7, V64[16])) \o << Seg(65534, Mov64I(3, 3)) >> \o Flat(<< CallxI(1), ExitI, Mov64I(0, 9), ExitI >>)
 FarCallCases(u) ==
+  { [BaseCase EXCEPT !.id = <<"farland", 0, 0, 0, 0, 0, 0>>, !.fam = "farcall", !.vm = "nodata", !.prog = FarLandProg] } \cup
   { [BaseCase EXCEPT !.id = <<"farcall", N, 0, 0, 0, 0, 0>>, !.fam = "farcall", !.vm = "nodata",
                      !.prog = FarCallProg(N)] : N \in {4, 32767, 32768, 65537, 200001, 999990} }
 
@@ -533,9 +537,25 @@ HelperNotAnEntry ==
                                     CallI(2), Mov64I(6, 1), Mov64I(7, 2), Mov64R(1, 10), CallxI(1), ExitI,
                                     Mov64R(0, 1), Sub64R(0, 10), ExitI >>)]
 
+\* a call tree: main calls f1 then f2; f2 calls f1 twice.  Every callee reports how far below its
+\* caller's r10 its own r10 is (= the CALLER's frame size, whatever was called before):
+\*   r0 = S(main) + 2^12 * ( S(main) + 2^12 * S(f2) + 2^24 * S(f2) )
+Lsh64I(d, m) == I(103, d, 0, 0, m)      \* 0x67 lsh64 rd, imm
+TreeProg ==
+  Flat(<< Mov64R(1, 10), CallxI(6), Mov64R(6, 0), Mov64R(1, 10), CallxI(6), Lsh64I(0, 12), Add64R(0, 6), ExitI,   \* main 0..7
+          Mov64R(0, 1), Sub64R(0, 10), ExitI,                                                                        \* f1   8..10
+          Mov64R(7, 1), Sub64R(7, 10), Mov64R(1, 10), CallxI(-7), Mov64R(8, 0), Mov64R(1, 10), CallxI(-10),         \* f2   11..22
+          Lsh64I(0, 12), Add64R(0, 8), Lsh64I(0, 12), Add64R(0, 7), ExitI >>)
+TreeSizes == << <<64, 16, 32>>, <<16, 64, 32>>, <<32, 48, 16>>, <<256, 256, 256>>, <<16, 16, 512>> >>
+TreeCase(ti) ==
+  [BaseCase EXCEPT !.id = <<"tree", ti, 0, 0, 0, 0, 0>>, !.fam = "calls", !.vm = "nodata", !.prog = TreeProg,
+                   !.calc = (ti > 0),
+                   !.fsz = IF ti = 0 THEN NoFsz
+                           ELSE [dflt |-> 48, tab |-> << <<0, TreeSizes[ti][1]>>, <<8, TreeSizes[ti][2]>>, <<11, TreeSizes[ti][3]>> >>]]
+
 CallsCases(u) ==
   { LocalVsHelper(k) : k \in {1, 2, 6} } \cup
-  WithJitDev( { HelperNotAnEntry } \cup { ChainCase(t[1], t[2], t[3]) : t \in {x \in (0..9) \X {0, 1} \X (1..7) : Keep(x[1] + 3*x[2] + 5*x[3])} }
+  WithJitDev( { HelperNotAnEntry } \cup { TreeCase(ti) : ti \in 0..Len(TreeSizes) } \cup { ChainCase(t[1], t[2], t[3]) : t \in {x \in (0..9) \X {0, 1} \X (1..7) : Keep(x[1] + 3*x[2] + 5*x[3])} }
               \cup { RecCase(N, ci) : N \in 0..9, ci \in {1, 2, 3} } )
 
 (***************************************************************************)
